@@ -30,10 +30,10 @@ const modPath = "github.com/twpayne/go-geom"
 // ---- abstract objects ----
 
 type obj struct {
-	kind  byte // 'P','G','S','U'
-	idx   int  // P: parameter index; S: site id
-	path  string // S: "" whole object, else struct field path "f.g.h"
-	name  string
+	kind byte   // 'P','G','S','U'
+	idx  int    // P: parameter index; S: site id
+	path string // S: "" whole object, else struct field path "f.g.h"
+	name string
 }
 
 func (o obj) String() string {
@@ -85,12 +85,12 @@ var fresh = obj{kind: 'S', idx: -1}
 var unknown = obj{kind: 'U'}
 
 type analyzer struct {
-	prog      *ssa.Program
-	sums      map[*ssa.Function]*summary
-	impls     map[string][]*ssa.Function // interface method id -> module implementations
-	changed   bool
+	prog       *ssa.Program
+	sums       map[*ssa.Function]*summary
+	impls      map[string][]*ssa.Function // interface method id -> module implementations
+	changed    bool
 	extUnknown map[string]bool
-	bySig     map[string][]*ssa.Function
+	bySig      map[string][]*ssa.Function
 }
 
 func pointerLike(t types.Type) bool {
@@ -1041,13 +1041,12 @@ func rootName(f *ssa.Function) string {
 func emit(a *analyzer, funcs []*ssa.Function, out string) {
 	var sb strings.Builder
 	sb.WriteString("-- GENERATED by /verif/effects from /repo; do not edit.\n")
-	sb.WriteString("-- (root, [may-write items]) for every exported function/method of the module with a non-empty\n")
-	sb.WriteString("-- may-write set; item = \"<param index>:<name>:<type>\" or \"global:<pkg>.<var>\" or \"unknown\".\n")
+	sb.WriteString("-- may-write summary of every exported function/method of the module (rows with an empty set omitted)\n")
 	sb.WriteString("namespace GeomVerif.Generated\n\n")
 	var roots []string
 	type row struct {
-		name  string
-		items []string
+		name, method string
+		items        []string
 	}
 	var rows []row
 	for _, f := range funcs {
@@ -1063,17 +1062,23 @@ func emit(a *analyzer, funcs []*ssa.Function, out string) {
 			case 'P':
 				if w.idx < len(f.Params) {
 					p := f.Params[w.idx]
-					items = append(items, fmt.Sprintf("%d:%s:%s", w.idx, p.Name(), types.TypeString(p.Type(), func(p *types.Package) string { return p.Name() })))
+					items = append(items, fmt.Sprintf("(%d, %q)", w.idx, types.TypeString(p.Type(), func(p *types.Package) string { return p.Name() })))
+				} else {
+					items = append(items, "(2000, \"captured variable\")")
 				}
 			case 'G':
-				items = append(items, "global:"+w.name)
+				items = append(items, fmt.Sprintf("(1000, %q)", w.name))
 			case 'U':
-				items = append(items, "unknown")
+				items = append(items, "(2000, \"unknown\")")
 			}
 		}
 		sort.Strings(items)
 		if len(items) > 0 {
-			rows = append(rows, row{name, items})
+			m := ""
+			if f.Signature.Recv() != nil {
+				m = f.Name()
+			}
+			rows = append(rows, row{name, m, items})
 		}
 	}
 	sort.Strings(roots)
@@ -1087,17 +1092,14 @@ func emit(a *analyzer, funcs []*ssa.Function, out string) {
 		fmt.Fprintf(&sb, "  %q%s\n", r, sep)
 	}
 	sb.WriteString("]\n\n")
-	sb.WriteString("def effects : List (String × List String) := [\n")
+	sb.WriteString("/-- (root, method name or \"\" for a function, [(parameter index, parameter type) | (1000, global) | (2000, unknown)]) -/\n")
+	sb.WriteString("def effects : List (String × String × List (Nat × String)) := [\n")
 	for i, r := range rows {
 		sep := ","
 		if i == len(rows)-1 {
 			sep = ""
 		}
-		qs := make([]string, len(r.items))
-		for k, it := range r.items {
-			qs[k] = fmt.Sprintf("%q", it)
-		}
-		fmt.Fprintf(&sb, "  (%q, [%s])%s\n", r.name, strings.Join(qs, ", "), sep)
+		fmt.Fprintf(&sb, "  (%q, %q, [%s])%s\n", r.name, r.method, strings.Join(r.items, ", "), sep)
 	}
 	sb.WriteString("]\n\n")
 	var unk []string
